@@ -355,6 +355,98 @@ def roundtrip(a: int, b: int, two: bool, pi: int, fpk: int) -> bool:
     return V(db2.pins() == want)
 
 
+def modelsql_valid():
+    """Translation validation of the sqlite3 contract model: scripted statement sequences (the shapes
+    tofu.py uses plus generic UPDATE/DELETE/SELECT forms, two connections, commit/close/rollback) are
+    run on the model and on real SQLite; fetched rows, rowcounts, exceptions and durable contents must agree."""
+    import os
+    import shutil
+    import sqlite3
+    import tempfile
+    A, B = FP
+    ins = "INSERT INTO known_hosts (hostname, port, fingerprint, first_seen, last_seen) VALUES (?, ?, ?, ?, ?)"
+    sel1 = "SELECT fingerprint FROM known_hosts WHERE hostname = ? AND port = ?"
+    selall = "SELECT hostname, port, fingerprint, first_seen, last_seen FROM known_hosts ORDER BY last_seen DESC"
+    scripts = [
+        [("x", 0, ins, ("h", 1, A, "f", "l")), ("x", 1, sel1, ("h", 1)), ("c", 0), ("x", 1, sel1, ("h", 1))],
+        [("x", 0, ins, ("h", 1, A, "f", "l")), ("x", 0, ins, ("h", 1, B, "f", "l")), ("c", 0)],
+        [("x", 0, ins, ("h", 1, A, "f", "l")), ("close", 0), ("x", 1, selall, ())],
+        [("x", 0, ins, ("h", 1, A, "f", "l1")), ("x", 0, ins, ("h", 2, B, "f", "l2")), ("c", 0),
+         ("x", 1, "UPDATE known_hosts SET last_seen = ? WHERE hostname = ? AND fingerprint = ?", ("now", "h", A)), ("c", 1),
+         ("x", 0, selall, ()), ("x", 0, "SELECT COUNT(*) FROM known_hosts WHERE hostname = ?", ("h",)),
+         ("x", 0, "DELETE FROM known_hosts WHERE hostname = ? AND port = ?", ("h", 2)), ("x", 1, selall, ()), ("c", 0),
+         ("x", 1, selall, ())],
+        [("x", 0, ins, ("h", 1, A, "f", "l")), ("c", 0), ("x", 0, "DELETE FROM known_hosts", ()), ("x", 1, sel1, ("h", 1)),
+         ("rb", 0), ("x", 0, sel1, ("h", 1))],
+        [("x", 0, ins, ("a", 1, A, "f", "l")), ("x", 0, ins, ("b", 1, A, "f", "l")), ("c", 0),
+         ("x", 0, "UPDATE known_hosts SET fingerprint = ?, last_seen = ? WHERE hostname = ? AND port = ?", (B, "n", "a", 1)),
+         ("x", 0, "DELETE FROM known_hosts WHERE hostname = ?", ("zzz",)), ("c", 0), ("x", 1, selall, ())],
+        [("x", 0, "INSERT OR REPLACE INTO known_hosts (hostname, port, fingerprint, first_seen, last_seen) VALUES (?, ?, ?, ?, ?)",
+          ("h", 1, A, "f", "l")), ("x", 0, "INSERT OR REPLACE INTO known_hosts (hostname, port, fingerprint, first_seen, last_seen) VALUES (?, ?, ?, ?, ?)",
+          ("h", 1, B, "f2", "l2")), ("c", 0), ("x", 1, selall, ())],
+    ]
+    n = 0
+    bad = []
+    for si, script in enumerate(scripts):
+        d = tempfile.mkdtemp(prefix="vf-sqlv-")
+        try:
+            path = os.path.join(d, "t.db")
+            rc = sqlite3.connect(path)
+            rc.execute("CREATE TABLE known_hosts (hostname TEXT NOT NULL, port INTEGER NOT NULL, fingerprint TEXT NOT NULL, "
+                       "first_seen TEXT NOT NULL, last_seen TEXT NOT NULL, PRIMARY KEY (hostname, port))")
+            rc.commit()
+            rc.close()
+            db, ctl = DB(), Ctl()
+            fake = FakeSqlite(db, ctl)
+            conns = {"m": {}, "r": {}}
+            for step in script:
+                outs = []
+                for side in ("m", "r"):
+                    cid = step[1]
+                    if cid not in conns[side]:
+                        conns[side][cid] = fake.connect("x") if side == "m" else sqlite3.connect(path)
+                        if side == "r":
+                            conns[side][cid].row_factory = sqlite3.Row
+                    cn = conns[side][cid]
+                    try:
+                        if step[0] == "x":
+                            cur = cn.cursor()
+                            cur.execute(step[2], step[3])
+                            if step[2].lstrip().upper().startswith("SELECT"):
+                                outs.append(("rows", sorted(tuple(r[k] for k in r.keys()) for r in cur.fetchall())))
+                            else:
+                                outs.append(("rc", cur.rowcount))
+                        elif step[0] == "c":
+                            cn.commit()
+                            outs.append(("ok",))
+                        elif step[0] == "rb":
+                            cn.rollback()
+                            outs.append(("ok",))
+                        elif step[0] == "close":
+                            cn.close()
+                            del conns[side][cid]
+                            outs.append(("ok",))
+                    except sqlite3.Error as e:
+                        outs.append(("err", type(e).__name__))
+                n += 1
+                if outs[0] != outs[1]:
+                    bad.append((si, step[:3], outs))
+            for cn in conns["r"].values():
+                cn.close()
+            rc = sqlite3.connect(path)
+            real_final = sorted(rc.execute("SELECT hostname, port, fingerprint, first_seen, last_seen FROM known_hosts").fetchall())
+            rc.close()
+            model_final = sorted(tuple(r[k] for k in ("hostname", "port", "fingerprint", "first_seen", "last_seen")) for r in db.rows.values())
+            n += 1
+            if real_final != model_final:
+                bad.append((si, "final", (model_final, real_final)))
+        finally:
+            shutil.rmtree(d, ignore_errors=True)
+    return {"state": "DIFF", "verdict": "confirmed" if not bad else "harness-error", "queries": n, "paths": n,
+            "message": "" if not bad else "ModelSQL disagrees with SQLite: %r" % (bad[:2],),
+            "samples": [{"scripts": len(scripts), "steps_compared": n}]}
+
+
 META = {
     "files": ["src/nauyaca/security/tofu.py"],
     "level": "model_checking",
@@ -376,6 +468,9 @@ META = {
 FN = ["TOFUDatabase.trust", "verify", "revoke", "revoke_by_hostname", "clear", "import_toml", "export_toml", "get_host_info",
       "list_hosts", "_validate_fingerprint", "_connection"]
 OBLIGATIONS = [
+    Ob("modelsql_valid", modelsql_valid, kind="diff", quick=120, thorough=300, twin=False,
+       symbolic="(translation validation of the sqlite3 contract model against real SQLite; not a claim about nauyaca)",
+       functions=["vf.modelsql"]),
     Ob("crash", crash, quick=300, thorough=900, real_replay=crash_real,
        symbolic="operation (trust / verify / revoke / revoke_by_hostname / clear / import merge / import replace), pre-store "
                 "(3 keys x {absent, fp A, fp B}), crash index 0..14 (statement or commit boundary)",
